@@ -139,6 +139,35 @@ func (d *seqRun) newSchema() *gen.Schema {
 	return s
 }
 
+// nearlyUUID returns a canonical UUID with ONE byte replaced by a neighbour in the ASCII table that is not a hex digit
+// (a bit of the byte cleared, set or flipped: control bytes, bytes beyond 0x7f, 'g', '@', '`', ...) or not a dash at a
+// dash position: malformed, though a validator that folds case or masks bits carelessly lets it through.
+func nearlyUUID(r *gen.Rng) string {
+	for {
+		b := []byte(r.UUID())
+		i := r.Intn(len(b))
+		switch r.Intn(7) {
+		case 0:
+			b[i] &^= 0x20
+		case 1:
+			b[i] |= 0x80
+		case 2:
+			b[i] ^= 0x40
+		case 3:
+			b[i] ^= 0x10
+		case 4:
+			b[i] |= 0x20
+		case 5:
+			b[i] = gen.Pick(r, []byte{0, 'g', 'G', '/', ':', '@', '`', ' ', '+'})
+		default:
+			b[i] ^= 0x08 << uint(r.Intn(2))
+		}
+		if !model.ValidUUID(string(b)) {
+			return string(b)
+		}
+	}
+}
+
 // idStringer prints as a canonical UUID but is not a string: as an _id it is malformed like any other non-string.
 type idStringer struct{ s string }
 
@@ -164,6 +193,10 @@ func (d *seqRun) newDocs(coll string, n int) []map[string]any {
 		}
 		if d.r.P(2) {
 			docs[i]["_expiresAt"] = time.Date(2100, 1, 1, 0, 0, 0, 0, time.UTC)
+		} else if d.r.P(2) {
+			// an expiration that has passed whatever the clock says: clover stores, counts and returns such a document
+			// like any other (nothing ever removes it), so it must be indexed like any other
+			docs[i]["_expiresAt"] = time.Date(1990, 5, 17, 3, 4, 5, 6, time.FixedZone("", 3600))
 		}
 	}
 	// a hostile batch now and then: duplicate or malformed at a random position
@@ -182,6 +215,9 @@ func (d *seqRun) newDocs(coll string, n int) []map[string]any {
 			}
 		case 2:
 			docs[pos]["_id"] = gen.Pick(d.r, malformedIDs)
+			if d.r.Bool() {
+				docs[pos]["_id"] = nearlyUUID(d.r)
+			}
 			if d.r.Bool() {
 				docs[pos]["_expiresAt"] = time.Date(2100, 6, 1, 0, 0, 0, 0, time.UTC) // a valid expiration must not hide the bad id
 			}
